@@ -291,9 +291,17 @@ def check_ops_translate_expression(ctx: Ctx, te: FuncInfo):
         pairs.append(k)
         ctx.check(op_ok(k, v), "DP-OPS", te, f"compare {k} -> '{v}'", "", f"the Python comparison {k} is translated with the comparator method `{v}`", e)
     ctx.check(sorted(pairs) == ["Eq", "Gt", "GtE", "Lt", "LtE", "NotEq"], "DP-OPS", te, "all six comparisons present once", str(pairs), f"comparator table covers {pairs}", lst[0])
-    call = [c for c in q.calls(te.node) if isinstance(c.func, ast.Call) and norm(c.func.func) == "getattr"]
-    ok = len(call) == 1 and [norm(a) for a in call[0].args] == ["tleft", "tcomp"] and norm(call[0].func.args[1]) == "comp_name"
-    ctx.check(ok, "DP-OPS", te, "comparator applied to (left, right) in source order", "", "the comparator is applied to swapped operands", call[0] if call else te.node)
+    call = [c for c in q.calls(te.node) if isinstance(c.func, ast.Call) and norm(c.func.func) == "getattr" and len(c.func.args) == 2 and norm(c.func.args[1]) == "comp_name"]
+    if len(call) != 1:
+        ctx.undecided(te.short, f"DP-OPS [comparator applied to (left, right) in source order]: {len(call)} applications `getattr(T, comp_name)(..)` of the looked-up comparator")
+    else:
+        cargs = [norm(a) for a in call[0].args]
+        if cargs == ["tleft", "tcomp"]:
+            ctx.ok("DP-OPS", te, "comparator applied to (left, right) in source order", str(cargs), call[0])
+        elif cargs == ["tcomp", "tleft"]:
+            ctx.fail("DP-OPS", te, "comparator applied to (left, right) in source order", "the comparator is applied to swapped operands", call[0])
+        else:
+            ctx.undecided(te.short, f"DP-OPS [comparator applied to (left, right) in source order]: applied to {cargs}")
     lr = [n for n in walk_no_nested(te.node) if isinstance(n, ast.Assign) and norm(n.targets[0]) in ("tleft", "tcomp", "tright")]
     srcs = {norm(n.targets[0]): norm(n.value) for n in lr}
     ctx.check(f"{var}.left" in srcs.get("tleft", "") and f"{var}.comparators[0]" in srcs.get("tcomp", "") and f"{var}.right" in srcs.get("tright", ""), "DP-OPS", te, "tleft/tcomp/tright come from left/comparators[0]/right", "", f"operand bindings: {srcs}", te.node)
@@ -308,6 +316,8 @@ def check_ops_translate_expression(ctx: Ctx, te: FuncInfo):
         if len(ops) != 1:
             continue
         k = ops[0]
+        if not hasattr(ast, k):
+            continue  # the class is a variable: a table-driven dispatch, decided from its table below
         rets = [r for r in iff.body if isinstance(r, ast.Return)]
         if not rets:
             continue
@@ -325,6 +335,33 @@ def check_ops_translate_expression(ctx: Ctx, te: FuncInfo):
             has_ok = all(c.args[1].value == impl for c in has)
             want_args = [["tleft", "tright"], ["tleft", f"{var}.right.value"], ["(texp, exp)"]]
             ctx.check(op_ok(k, impl) and has_ok and args in want_args, "DP-OPS", te, f"{k} -> .{impl}({', '.join(args)})", "", f"Python `{k}` is translated by `{norm(v)[:60]}` (guard {[norm(c) for c in has]})", rets[0])
+    # table-driven spelling: `for op_class, impl[, ..] in TABLE: if isinstance(expr.op, op_class) ...: return impl-applied`
+    for l_ in q.for_loops(te.node, nested=True):
+        if not (isinstance(l_.target, ast.Tuple) and len(l_.target.elts) >= 2 and all(isinstance(e_, ast.Name) for e_ in l_.target.elts) and isinstance(l_.iter, ast.Name)):
+            continue
+        cls_v, impl_v = l_.target.elts[0].id, l_.target.elts[1].id
+        tests = [c for c in ast.walk(l_) if isinstance(c, ast.Call) and isinstance(c.func, ast.Name) and c.func.id == "isinstance" and len(c.args) == 2 and norm(c.args[0]) == f"{var}.op" and norm(c.args[1]) == cls_v]
+        if not tests:
+            continue
+        tbl = te.module.globals_assigned.get(l_.iter.id) if te.module is not None else None
+        if not isinstance(tbl, (ast.Tuple, ast.List)) or not all(isinstance(r_, (ast.Tuple, ast.List)) and len(r_.elts) >= 2 for r_ in tbl.elts):
+            ctx.undecided(te.short, f"DP-OPS: operator table `{l_.iter.id}` is not a module-level literal of (ast class, implementation, ..) rows")
+            continue
+        for r_ in tbl.elts:
+            k = (dotted(r_.elts[0]) or "").split(".")[-1]
+            impl = r_.elts[1].value if isinstance(r_.elts[1], ast.Constant) else (head_name(r_.elts[1]) or norm(r_.elts[1]))
+            n += 1
+            ctx.check(op_ok(k, impl), "DP-OPS", te, f"{k} -> {impl} (table {l_.iter.id})", "", f"table `{l_.iter.id}` translates Python `{k}` with `{impl}`, which is a different operator", r_)
+        # the looked-up implementation is applied to (left, right) in this order
+        apps = [c for c in ast.walk(l_) if isinstance(c, ast.Call) and ((isinstance(c.func, ast.Name) and c.func.id == impl_v) or (isinstance(c.func, ast.Call) and norm(c.func.func) == "getattr" and len(c.func.args) == 2 and norm(c.func.args[1]) == impl_v))]
+        for c in apps:
+            a_ = [norm(x) for x in c.args]
+            if a_ in (["tleft[1]", "tright[1]"], ["tleft", "tright"], ["tleft", f"{var}.right.value"]):
+                ctx.ok("DP-OPS", te, f"table {l_.iter.id}: implementation applied to (left, right)", str(a_), c)
+            elif a_ in (["tright[1]", "tleft[1]"], ["tright", "tleft"]):
+                ctx.fail("DP-OPS", te, f"table {l_.iter.id}: implementation applied to (left, right)", f"`{norm(c)[:60]}` applies the operator to swapped operands", c)
+            else:
+                ctx.undecided(te.short, f"DP-OPS: `{norm(c)[:60]}` applies a table entry to operands outside the tables")
     if n < 12:
         raise AnchorError(TE, f"only {n} operator branches found")
     # BoolOp and unary not
